@@ -319,14 +319,32 @@ func schedCase(k *engine.Case) {
 		nkeys = 1
 	}
 	useStr := r.Intn(4) == 0
+	// keys of every integer width (the key is an interface{}: int32(4) and int(4) are two keys)
+	typed := !useStr && r.Intn(3) == 0
 	keyOf := func(i int) interface{} {
 		if useStr {
 			return fmt.Sprintf("key-%d", i)
 		}
+		if typed {
+			switch i % 6 {
+			case 0:
+				return int32(i * 2)
+			case 1:
+				return uint64(i * 2)
+			case 2:
+				return int8(i * 2)
+			case 3:
+				return uint16(i * 2)
+			case 4:
+				return int64(i * 2)
+			default:
+				return uint32(i * 2)
+			}
+		}
 		return i * 2
 	}
 	m := mkd.mk(ratio)
-	k.Logf("map=%s ratio=%d keys=%d strkeys=%v", mkd.name, ratio, nkeys, useStr)
+	k.Logf("map=%s ratio=%d keys=%d strkeys=%v sized-integer-keys=%v", mkd.name, ratio, nkeys, useStr, typed)
 	d := engine.NewDriver(Q, k)
 
 	var ops []*acq
